@@ -255,7 +255,7 @@ def whole_run_protocol(ctx, bt, n, corr_name="whole-run", make_spec=None, footpr
 
 # ---------------------------------------------------------------------------------------------------------------
 # extended programs (`wholerunx`): the selection part is a sequence of SelectAll / SelectThese / SelectHasData / SelectMomentum
-def gen_stack_x(rng, names, lev=False, rank_ok=True):
+def gen_stack_x(rng, names, lev=False, rank_ok=True, flow_ok=True):
     """rank_ok=False: no ranked selection (a strategy over sub-strategies: their indices are exactly flat until they trade, so total
     returns tie exactly and the winner would be pandas' sort order, an implementation detail the model does not claim)"""
     base = gen_stack(rng, names, lev)
@@ -276,7 +276,23 @@ def gen_stack_x(rng, names, lev=False, rank_ok=True):
         sels = [base[1]]
     if any(s[0] in ("SelectHasData", "SelectMomentum") for s in sels):
         wgh = ["WeighEqually"]      # what a data filter selected is what gets traded
-    return [sched] + sels + [wgh, ["Rebalance"]]
+    r2 = rng.random()
+    if r2 < 0.1:
+        sched = ["RunOnce"]
+    elif r2 < 0.2:
+        nn = rng.randint(2, 4)
+        sched = ["RunEveryNPeriods", nn, rng.randint(0, nn - 1)]
+    elif r2 < 0.3:
+        sched = ["RunAfterDays", rng.randint(1, 4)]
+    if sched[0] in ("RunOnce", "RunEveryNPeriods", "RunAfterDays"):
+        # a stack that can act on its very first call must not trade names that have no price yet (shadow copies are first called
+        # on the synthetic row): select on data
+        if wgh[0] != "WeighEqually" or sels[0][0] == "SelectThese":
+            sels, wgh = [["SelectAll"]], ["WeighEqually"]
+    st = [sched] + sels + [wgh, ["Rebalance"]]
+    if flow_ok and rng.random() < 0.25:
+        st = [["CapitalFlow", float(rng.choice([100.0, 2500.0, 10000.0, -50.0, -1000.0]))]] + st
+    return st
 
 
 def gen_spec_x(rng, nested=None):
@@ -309,12 +325,26 @@ def gen_spec_x(rng, nested=None):
     return spec
 
 
-def ser_progx(bt, node, spec_node, bdates):
+def ser_progx(bt, node, spec_node, bdates, first_row=1):
     kids = list(node._childrenv)
     name_idx = {k.name: i for i, k in enumerate(kids)}
-    st = spec_node["stack"]
+    st = list(spec_node["stack"])
+    flow = None
+    if st[0][0] == "CapitalFlow":
+        flow = float(st[0][1])
+        st = st[1:]
     sched, sels, wgh = st[0], st[1:-2], st[-2]
-    toks = ["X", str(KINDS[sched[0]]), E.tB(sched[1]), E.tB(sched[2]), E.tB(sched[3])]
+    toks = ["X", E.tO(flow)]
+    if sched[0] in KINDS:
+        toks += [str(KINDS[sched[0]]), E.tB(sched[1]), E.tB(sched[2]), E.tB(sched[3])]
+    elif sched[0] == "RunOnce":
+        toks += ["5", str(first_row)]
+    elif sched[0] == "RunEveryNPeriods":
+        toks += ["6", str(sched[1]), str(sched[2]), str(first_row)]
+    elif sched[0] == "RunAfterDays":
+        toks += ["7", str(sched[1]), str(first_row)]
+    else:
+        raise ValueError(sched[0])
     ucols = [name_idx[c] for c in node._universe.columns if c in name_idx]
     toks.append(E.tL(ucols, str))
     dates = [pd.Timestamp(d) for d in bdates]
@@ -353,21 +383,22 @@ def ser_progx(bt, node, spec_node, bdates):
     toks.append(str(len(kids)))
     for k in kids:
         if isinstance(k, bt.core.StrategyBase):
-            toks.append("P " + ser_progx(bt, k, by_name[k.name], bdates))
+            toks.append("P " + ser_progx(bt, k, by_name[k.name], bdates, first_row))
         else:
             toks.append("N")
     return " ".join(toks)
 
 
-def ser_simx(bt, root, spec_node, snaps, bdates):
+def ser_simx(bt, root, spec_node, snaps, bdates, first_row=1):
+    """first_row: the row of the first run() call - 1 for the backtest's own tree, 0 for a shadow copy (stepped on the synthetic row)"""
     snaps.append(root)
     w = E.snap_world(bt, root)
-    toks = [E.ser_world(w), ser_progx(bt, root, spec_node, bdates)]
+    toks = [E.ser_world(w), ser_progx(bt, root, spec_node, bdates, first_row)]
     subs = sub_strategies(bt, root)
     toks.append(str(len(subs)))
     for path, k in subs:
         toks.append(E.ser_path(path))
-        toks.append(ser_simx(bt, k._paper, spec_at(spec_node, root, k), snaps, bdates))
+        toks.append(ser_simx(bt, k._paper, spec_at(spec_node, root, k), snaps, bdates, 0))
     return " ".join(toks)
 
 
